@@ -15,8 +15,9 @@
    share no private or local names; included files pasted only when they define nothing).  That
    side condition is what the metamorphic sweep on the real code covers.
    [times] is the log of compile_file calls (newest first); the counter of a file is its number of
-   occurrences.  Fuel = include depth (a file that includes itself without '.once' recurses until
-   Python's RecursionError; here OutOfFuel).  No proofs here. *)
+   occurrences.  Fuel = include depth: the code refuses an '.include' nested deeper than MAX_INCLUDE_DEPTH = 32 with
+   'recursive-include' (a file that includes itself without '.once'); run with fuel 33 the model runs
+   out of fuel exactly there, and the Run file reads OutOfFuel as that refusal.  No proofs here. *)
 From Coq Require Import ZArith List Bool Arith String.
 From Verif Require Import Base.Res.
 From Verif Require Gen.GenGetAsInt.
